@@ -49,18 +49,18 @@ CHECKS.update({
  "C06": dict(
    technique="explicit-state exploration of swap histories over the real runtime: all histories with <= T steps and <= s same-text swaps, executed by re-execution from the initial state (shape S)",
    text="For every stateful program of the families below the bound, every history of T steps with swaps to a fresh compilation of the same source at every tuple of split points (including two swaps with no step between) is executed on the real VM runtime, and every single-swap history on the real WASM runtime with both payload variants the CLI prepares; every step's outputs and state words must equal the uninterrupted run's.",
-   note="The WASM payload preparation is a copy of the CLI's private helper functions. Bounds: T steps, s swaps, program size.",
+   note="Swaps go through mimium-cli's real file runner (cfg-guarded hook: FileRunner::recompile_file_inprocess on the VM, FileRunner::prepare_hot_swap_wasm_payload on WASM); only the CLI's compiler subprocess is replaced by an in-process compilation. Bounds: T steps, s swaps, program size.",
    design="4/C06"),
  "C07": dict(
    technique="explicit-state exploration of (old program, edit, swap time) histories with compile-fault injection over the real runtimes, differential oracle against uninterrupted and fresh runs (shape S)",
    text="Programs are fixed-arity tuples of independent stateful voices; for every old program, slot and edit (insert, delete, replace, constant change, nesting, non-compiling text) and every swap time the real runtime is driven through run / compile / hot-swap / run, and each channel is compared with the uninterrupted run of the old program (untouched sites), a fresh run started at the swap time (new sites) or the closed form of a counter (changed constant); a non-compiling edit must be rejected and change nothing.",
-   note="Any order-preserving pairing among identically written siblings is accepted. Expected values come from other runs of the same runtime, never from hand-written numbers.",
+   note="Any order-preserving pairing among identically written siblings is accepted. Expected values come from other runs of the same runtime, never from hand-written numbers. Recompilation and payload preparation are the CLI file runner's own (hook), except its compiler subprocess.",
    design="4/C07"),
 })
 CHECKS.update({
  "C11": dict(
    technique="bounded-exhaustive enumeration of task programs (all scheduling times, insertion orders, periods, chains up to the task bound) run on the real VM and WASM schedulers and compared with a sorted-multiset reference at every sample (shape S)",
-   text="Every program with up to k tasks, each first scheduled from global scope at one of four times (equal and fractional times included) or chained from the previous task, and rescheduling itself with one of four periods, is run on both runtimes with the scheduler plugin; after every sample each task's run counter and the time it observed must equal the reference in which a task scheduled for w runs exactly once before dsp of sample floor(w).",
+   text="Every program with up to k tasks, each first scheduled from global scope at one of four times (equal and fractional times included) or chained from the previous task, and rescheduling itself with one of four periods, is run on both runtimes with the scheduler plugin; after every sample each task's run counter and the time it observed must equal the reference in which a task scheduled for w runs exactly once before dsp of sample floor(w). A second family binds two closure values inside a function and issues every sequence of requests over 2 closures x 4 times, so that one closure value is also requested several times for one sample.",
    note="Per-task counter cells make same-sample ordering unobservable. Scheduling from inside dsp is not generated.",
    design="4/C11"),
 })
@@ -107,8 +107,8 @@ CHECKS.update({
 CHECKS.update({
  "C15": dict(
    technique="explicit-state exploration of compilation histories in one process (all sequences of <= d compilations over a program set built to exercise every name/hash-keyed table), each observation compared with fresh-process observations (shape S)",
-   text="Every history of up to d compilations over ten programs is executed in a worker process; the last compilation's bytecode listing, WASM bytes, state layout and VM/WASM outputs must equal those of an immediate recompilation and those obtained in fresh processes, whatever was compiled before.",
-   note="The hash-seed dimension (HashMap iteration order across processes) cannot be enumerated without replacing RandomState throughout the compiler; it is covered only by R fresh processes per program (sampling, labelled as such in the evidence). The MIR text is not compared (it embeds interner ids).",
+   text="Every history of up to d compilations over twelve programs is executed in a worker process, on a thread started under one of a stated set of HashMap seeds; the last compilation's bytecode listing, WASM bytes, state layout and VM/WASM outputs must equal those of an immediate recompilation and those obtained in fresh processes, whatever was compiled before.",
+   note="The harness owns the HashMap seeds (it defines getrandom, which std's RandomState draws from): histories run under seed indices 1..5 (thorough 1..11) and fresh process k under seed index k, so the explored seeds are stated, not drawn at random, and a violation replays exactly; the other 2^128 seeds are not explored. The MIR text is not compared (it embeds interner ids).",
    design="4/C15"),
 })
 CHECKS.update({
